@@ -1902,8 +1902,16 @@ class Builder:
         )
 
         # SDK handles to result values (Qubit objects).
+        # With a single communication qubit a post routine handles every pair in
+        # virtual qubit 0, one at a time, exactly as for a sequential request: no
+        # memory qubits are prepared for the pairs (they would stay allocated).
+        one_at_a_time = params.sequential or (
+            params.post_routine is not None
+            and self._hardware_config is not None
+            and self._hardware_config.comm_qubit_count == 1
+        )
         qubit_futures: List[Qubit] = self._get_qubit_futures(
-            params.number, params.sequential, ent_results_array
+            params.number, one_at_a_time, ent_results_array
         )
         assert all(isinstance(q, Qubit) for q in qubit_futures)
 
